@@ -246,6 +246,24 @@ def Re.all (T : UTables) (cs : Array Char) (r : Re) : List RMatch :=
 /-- `Regex::is_match` -/
 def Re.isMatch (T : UTables) (cs : Array Char) (r : Re) : Bool := (Re.find T cs r 0).isSome
 
+/-- does the class accept U+0020? (a blank is not a letter, a currency sign or a word character) -/
+def CSet.hasBlank (s : CSet) : Bool :=
+  (s.items.any fun it => match it with
+    | .ch c => c = 32
+    | .range lo hi => lo ≤ 32 && 32 ≤ hi
+    | _ => false) != s.neg
+
+/-- every class that accepts a blank stands under a repetition without upper bound: the expression never limits the
+    length of a run of blanks (`[ ]*`, `[ ]{1,}`, `[^}]+` … but not ` ?` or a single `[ ]`) -/
+def Re.blankRunsUnbounded : Bool → Re → Bool
+  | u, .set s => !s.hasBlank || u
+  | u, .seq a b => a.blankRunsUnbounded u && b.blankRunsUnbounded u
+  | u, .alt a b => a.blankRunsUnbounded u && b.blankRunsUnbounded u
+  | u, .rep r _ mx => r.blankRunsUnbounded (u || mx.isNone)
+  | u, .grp _ r => r.blankRunsUnbounded u
+  | _, .eps => true
+  | _, .wordb => true
+
 /-- a regex with its named groups -/
 structure NRe where
   re : Re
